@@ -306,6 +306,75 @@ def streamdata_script(r, idx, fate_vec=None):
                                                  "fates": fate_vec is not None}}
 
 
+def streamdata_ackfreq(r, idx):
+    """Stream transfers while the acknowledgement rhythm is renegotiated all the time: both sides use
+    ACK_FREQUENCY with a requested delay that follows the RTT (a configured maximum above it), the RTT
+    moves (jitter, delayed datagrams) so that requests with new sequence numbers keep being sent, and
+    datagrams overtake each other - stale requests arrive in packets that also carry stream data."""
+    cfg = base_cfg(r, server={"idle_ms": 30000}, client={"idle_ms": 30000})
+    for side in ("server", "client"):
+        cfg[side]["ack_freq"] = True
+        cfg[side]["ack_freq_threshold"] = r.choice([0, 1, 2, 5])
+        cfg[side]["ack_freq_max_delay_ms"] = r.choice([60, 200, 200])
+        if r.random() < 0.3:
+            cfg[side]["cc"] = r.choice(["newreno", "bbr", "cubic"])
+    cfg["latency_us"] = r.choice([15000, 30000, 60000])
+    cfg["jitter_us"] = r.choice([10000, 30000, 60000])
+    cfg["fates_c2s"] = fates(r, 30, 0.4)
+    cfg["fates_s2c"] = fates(r, 30, 0.4)
+    if r.random() < 0.4:
+        cfg["loss_pct"] = r.choice([2, 10])
+    steps = [{"do": "connect", "n": 1}, {"do": "run_until", "what": "connected", "max_us": 20000000}]
+    # several rounds of small writes spread over time: STREAM frames share packets with whatever
+    # control frames are due
+    for k in range(r.choice([2, 3, 5])):
+        w = workload(r, n=r.choice([0, 1]))
+        for st in w["streams"]:
+            st["size"] = r.choice([1, 100, 1200, 5000])
+            st["chunk"] = r.choice([100, 1200, 5000])
+        steps.append(w)
+        steps.append({"do": "run", "us": r.choice([20000, 60000, 150000, 400000])})
+    steps.append({"do": "run_until", "what": "apps", "max_us": 60000000})
+    steps.append({"do": "run", "us": 300000})
+    return {"cfg": cfg, "steps": steps, "tag": {"family": "streamdata-ackfreq", "idx": idx, "fates": False}}
+
+
+def streamdata_zerortt(r, idx):
+    """Stream data written before the handshake completes by a resuming client: it leaves in 0-RTT
+    packets that the server accepts or rejects, possibly after a Retry that makes the client start
+    over - whatever happens to those packets, every byte (and the end of the streams already
+    finished) has to arrive once."""
+    cfg = base_cfg(r, server=tcfg_menu(r), client=tcfg_menu(r))
+    cfg["server"]["idle_ms"] = 30000
+    cfg["client"]["idle_ms"] = 30000
+    cfg["server"].pop("keep_alive_ms", None)
+    cfg["client"].pop("keep_alive_ms", None)
+    cfg["ticket"] = True
+    # (accepted: after a rejection the early streams are gone and their numbers are used again - C17's subject)
+    cfg["accept_early"] = True
+    cfg["incoming"] = r.choice(["accept", "retry", "retry"])
+    cfg["new_tokens"] = 0
+    cfg["fates_c2s"] = fates(r, 12, r.choice([0.0, 0.2, 0.4]))
+    cfg["fates_s2c"] = fates(r, 12, r.choice([0.0, 0.2, 0.4]))
+    steps = [{"do": "connect", "n": 1}]
+    nst = r.choice([1, 2, 3])
+    for i in range(nst):
+        steps.append({"do": "op", "n": 1, "c": 0, "op": {"op": "open", "dir": 0}})
+    for i in range(nst):
+        sid = 4 * i
+        steps.append({"do": "op", "n": 1, "c": 0, "op": {"op": "write", "id": sid, "len": r.choice([1, 100, 700, 3000, 9000]),
+                                                        "key": _skey(False, sid), "off": "auto"}})
+        if r.random() < 0.7:
+            steps.append({"do": "op", "n": 1, "c": 0, "op": {"op": "finish", "id": sid}})
+    if r.random() < 0.5:
+        # let the early flight leave (and be answered) before anything else is written
+        steps.append({"do": "run", "us": r.choice([1000, 15000, 40000])})
+    steps.append(workload(r))
+    steps.append({"do": "run_until", "what": "apps", "max_us": 60000000})
+    steps.append({"do": "run", "us": 2000000})
+    return {"cfg": cfg, "steps": steps, "tag": {"family": "streamdata-0rtt", "idx": idx, "fates": False}}
+
+
 # ------------------------------------------------------------------------------------------------
 # C07
 
